@@ -72,12 +72,9 @@ impl MT935 {
 
             // Parse field 37H (New Interest Rate) - can be multiple per sequence
             let mut field_37h = Vec::new();
-            while let Ok(rate) = parser.parse_field::<Field37H>("37H") {
-                field_37h.push(rate);
-                // Keep parsing 37H until we hit the next sequence marker or end
-                if !parser.detect_field("37H") {
-                    break;
-                }
+            // Keep parsing 37H until we hit the next sequence marker or end
+            while parser.detect_field("37H") {
+                field_37h.push(parser.parse_field::<Field37H>("37H")?);
             }
 
             // At least one field 37H is required per sequence
